@@ -483,6 +483,14 @@ def check(ctx):
     mk2 = ctx.sites(tpi, f"self._decoder = $K(errors={err_p})") + ctx.sites(tpi, f"self._decoder = codecs.getincrementaldecoder({enc_p})(errors={err_p})")
     ctx.ob("R16-d", tpi, "one incremental decoder for the configured encoding and error policy is created per stream", len(mk2) >= 1 and (len(mk) == 1 or "getincrementaldecoder" in ast.unparse(mk2[0][0])),
            detail="" if mk2 else "TextReceiveStream.__post_init__ does not create `codecs.getincrementaldecoder(encoding)(errors=errors)`", by=("getincrementaldecoder",))
+    # (whatever shape the creation has, the codec looked up is the one given to *this* constructor: `encoding` is an init-only variable,
+    # an attribute of that name on the instance is just the class default)
+    for f_c, par_c, fn_c in ((tpi, enc_p, "getincrementaldecoder"), (ctx.fn("TextSendStream.__post_init__", TXT), None, "getincrementalencoder")):
+        par_c = par_c or f_c.node.args.args[1].arg
+        lk = [x for x in own_walk(f_c.node) if isinstance(x, ast.Call) and call_name(x) == fn_c]
+        okl = len(lk) == 1 and len(lk[0].args) == 1 and norm(lk[0].args[0]) == par_c
+        ctx.ob("R16-d", f_c, f"the codec is looked up by the `{par_c}` argument of the constructor", okl, node=stmt_of(lk[0]) if lk else f_c.node, by=(f"{fn_c}({par_c})",),
+               detail="" if okl else f"`codecs.{fn_c}(...)` is not called with the constructor's `{par_c}` argument: the stream decodes/encodes with another codec than the one it was given")
     wd = [w for w in ctx.writers("_decoder", modules=[TXT]) if w[3] == "assign" and w[0] is not None]
     okw = all(w[0].qual == "TextReceiveStream.__post_init__" for w in wd) and len(wd) == 1
     ctx.ob("R16-d", tpi, "the decoder is never replaced (its state carries split characters across chunks)", okw, detail="" if okw else f"_decoder assigned in {[w[0].qual for w in wd]}", by=("writer table",))
@@ -593,3 +601,14 @@ def check(ctx):
             ctx.ob("R16-e", tsi, f"{cn}.{fld} has the same default as TextSendStream.{fld}", ok, node=x, by=(repr(vals[cn]),),
                    detail="" if ok else f"{cn} defaults to {fld}={vals[cn]!r} but TextSendStream to {ref!r}: default-constructed send and receive sides no longer "
                                         "compose to the identity (utf-8-sig, for one, drops a leading U+FEFF)")
+
+    # ---- R16-f the buffered wrapper reads from, and writes to, exactly the stream it was given: its constructor hands the unmodified
+    # argument to the receive side (whose buffer is the only one involved) and keeps the same object for the send side.  Unwrapping an
+    # argument that is itself buffered would strand the bytes in *its* buffer.
+    bi = ctx.fn("BufferedByteStream.__init__", BUF)
+    sp_ = bi.node.args.args[1].arg
+    rebound = [x for x in ast.walk(bi.node) if isinstance(x, ast.Name) and x.id == sp_ and isinstance(x.ctx, (ast.Store, ast.Del))]
+    ctx.ob("R16-f", bi, "the stream argument is not replaced inside the constructor", not rebound, node=stmt_of(rebound[0]) if rebound else bi.node, by=("parameter not rebound",),
+           detail="" if not rebound else f"`{norm(stmt_of(rebound[0]))}` rebinds the stream argument: the wrapper no longer reads from the object it was given")
+    dominates_all_exits(ctx, "R16-f", bi, f"super().__init__({sp_})", "the receive side wraps the given stream")
+    dominates_all_exits(ctx, "R16-f", bi, f"self._stream = {sp_}", "the send side writes to the given stream")
